@@ -35,6 +35,10 @@ pub struct Case {
     pub count: Option<u64>,
     pub pattern: Option<Bytes>,
     pub type_filter: Option<u8>,
+    /// HSCAN only: NOVALUES (the reply holds fields only)
+    pub novalues: bool,
+    /// options in the order COUNT, MATCH instead of MATCH, COUNT
+    pub count_first: bool,
     /// batch i is applied after call i: (add?, index into the volatile pool)
     pub mods: Vec<Vec<(bool, usize)>>,
     /// volatile pool (superset of volatile_initial names)
@@ -76,9 +80,10 @@ fn case(max_n: usize) -> BoxedStrategy<Case> {
                 proptest::option::weighted(0.4, pattern()),
                 proptest::option::weighted(0.3, 0u8..6),
                 proptest::collection::vec(proptest::collection::vec((any::<bool>(), any::<prop::sample::Index>()), 0..12), 0..14),
+                (prop::bool::weighted(0.4), any::<bool>()),
             )
         })
-        .prop_map(|(kind, stable, vol, extra, count, pattern, type_filter, mods)| {
+        .prop_map(|(kind, stable, vol, extra, count, pattern, type_filter, mods, (novalues, count_first))| {
             // names must be unique across stable and volatile
             let mut seen = BTreeSet::new();
             let stable: Vec<(Bytes, u8)> = stable.into_iter().filter(|(n, _)| seen.insert(n.clone())).collect();
@@ -89,7 +94,8 @@ fn case(max_n: usize) -> BoxedStrategy<Case> {
             let plen = pool.len().max(1);
             let mods = mods.into_iter().map(|b| b.into_iter().map(|(add, ix)| (add, ix.index(plen))).collect()).collect();
             let type_filter = if kind == Kind::Keys { type_filter } else { None };
-            Case { kind, stable, volatile_initial: vol, count, pattern, type_filter, mods, pool }
+            let novalues = novalues && kind == Kind::Hash;
+            Case { kind, stable, volatile_initial: vol, count, pattern, type_filter, novalues, count_first, mods, pool }
         })
         .boxed()
 }
@@ -201,13 +207,25 @@ fn run_case(server: &mut Server, cs: &Case) -> CaseResult {
             Kind::Set => vec![b"SSCAN".to_vec(), COLL.to_vec(), cursor.clone()],
             Kind::ZSet => vec![b"ZSCAN".to_vec(), COLL.to_vec(), cursor.clone()],
         };
+        let mut opt_match: Vec<Bytes> = Vec::new();
         if let Some(p) = &cs.pattern {
-            cmd.push(b"MATCH".to_vec());
-            cmd.push(p.clone());
+            opt_match.push(b"MATCH".to_vec());
+            opt_match.push(p.clone());
         }
+        let mut opt_count: Vec<Bytes> = Vec::new();
         if let Some(n) = cs.count {
-            cmd.push(b"COUNT".to_vec());
-            cmd.push(n.to_string().into_bytes());
+            opt_count.push(b"COUNT".to_vec());
+            opt_count.push(n.to_string().into_bytes());
+        }
+        if cs.count_first {
+            cmd.extend(opt_count);
+            cmd.extend(opt_match);
+        } else {
+            cmd.extend(opt_match);
+            cmd.extend(opt_count);
+        }
+        if cs.novalues {
+            cmd.push(b"NOVALUES".to_vec());
         }
         if let Some(t) = cs.type_filter {
             cmd.push(b"TYPE".to_vec());
@@ -227,7 +245,7 @@ fn run_case(server: &mut Server, cs: &Case) -> CaseResult {
             trace.push(json!({"call": crate::model::show_cmd(&cmd).chars().take(120).collect::<String>(), "next_cursor": show_bytes(&next), "returned": items.len()}));
         }
         // decode elements
-        let step = if matches!(cs.kind, Kind::Hash | Kind::ZSet) { 2 } else { 1 };
+        let step = if (cs.kind == Kind::Hash && !cs.novalues) || cs.kind == Kind::ZSet { 2 } else { 1 };
         if items.len() % step != 0 {
             return fail(format!("{}: {} items, not a whole number of pairs", crate::model::show_cmd(&cmd), items.len()), "reply-shape", &labels, trace);
         }
@@ -312,6 +330,9 @@ fn run_case(server: &mut Server, cs: &Case) -> CaseResult {
     if cs.type_filter.is_some() {
         labels.insert("with-TYPE");
     }
+    if cs.novalues {
+        labels.insert("HSCAN-NOVALUES");
+    }
     labels.insert(match cs.kind {
         Kind::Keys => "SCAN",
         Kind::Hash => "HSCAN",
@@ -359,6 +380,8 @@ fn case2j(c: &Case) -> Value {
         "count": c.count,
         "pattern": c.pattern.as_ref().map(|p| crate::driver::b2j(p)),
         "type_filter": c.type_filter,
+        "novalues": c.novalues,
+        "count_first": c.count_first,
         "mods": c.mods.iter().map(|b| b.iter().map(|(a, i)| json!([a, i])).collect::<Vec<_>>()).collect::<Vec<_>>(),
     })
 }
@@ -377,6 +400,8 @@ fn j2case(v: &Value) -> Case {
         count: v.get("count").and_then(|c| c.as_u64()),
         pattern: v.get("pattern").filter(|p| !p.is_null()).map(crate::driver::j2b),
         type_filter: v.get("type_filter").and_then(|c| c.as_u64()).map(|t| t as u8),
+        novalues: v.get("novalues").and_then(|c| c.as_bool()).unwrap_or(false),
+        count_first: v.get("count_first").and_then(|c| c.as_bool()).unwrap_or(false),
         mods: v.get("mods").and_then(|m| m.as_array()).map(|a| a.iter().map(|b| b.as_array().map(|b| b.iter().filter_map(|e| Some((e.get(0)?.as_bool()?, e.get(1)?.as_u64()? as usize))).collect()).unwrap_or_default()).collect()).unwrap_or_default(),
     }
 }
@@ -387,7 +412,7 @@ pub fn run(tier: Tier, seed: u64, replay: Option<Value>) -> i32 {
         tier,
         seed,
         "exploration",
-        "one case = a collection (the key space of a database with keys of all six types, or the fields/members of one hash, set or sorted set) of 0..400 stable elements plus 0..80 volatile ones (names with shared prefixes, glob metacharacters, binary, 1..60 bytes), one full cursor iteration from 0 to 0 with generated COUNT (absent, 1, 2, 3, 7, 10, 11, 100, 1000, 10^6), optional MATCH (12 fixed globs + the C01 glob grammar) and TYPE, and after each call a generated batch of 0..11 additions and deletions of volatile elements (never of the stable set). Oracle: every stable element that satisfies the filters is returned at least once; every returned element existed at some point and satisfies MATCH (model glob on bytes) and TYPE; HSCAN values and ZSCAN scores are the element's own; the cursor is an unsigned integer; once modifications stop the iteration ends within n/COUNT + 12 calls. Non-trivial = an iteration of >= 3 calls with >= 1 addition and >= 1 deletion of other elements between calls; distinct by hash of the case",
+        "one case = a collection (the key space of a database with keys of all six types, or the fields/members of one hash, set or sorted set) of 0..400 stable elements plus 0..80 volatile ones (names with shared prefixes, glob metacharacters, binary, 1..60 bytes), one full cursor iteration from 0 to 0 with generated COUNT (absent, 1, 2, 3, 7, 10, 11, 100, 1000, 10^6), optional MATCH (12 fixed globs + the C01 glob grammar), TYPE, HSCAN NOVALUES, options in either order, and after each call a generated batch of 0..11 additions and deletions of volatile elements (never of the stable set). Oracle: every stable element that satisfies the filters is returned at least once; every returned element existed at some point and satisfies MATCH (model glob on bytes) and TYPE; HSCAN values and ZSCAN scores are the element's own; the cursor is an unsigned integer; once modifications stop the iteration ends within n/COUNT + 12 calls. Non-trivial = an iteration of >= 3 calls with >= 1 addition and >= 1 deletion of other elements between calls; distinct by hash of the case",
     ));
     let mk = |_: usize| Server::start(ServerOpts::default());
     if let Some(r) = replay {
